@@ -67,6 +67,7 @@ type Obligation struct {
 	env     *Env
 	fr      *Frame
 	knownPart string
+	skipFrom, skipTo int // lines left out of the query of a split (known-finding) site assertion: the assumption of its own goal
 	relaxed   bool
 }
 
